@@ -624,7 +624,10 @@ def run(ctx):
             ns += 1
         ctx.case(key=("upd", c["ty"], c["min"], c["perms"], c["text_addr"], c["text_size"], c["wbase"], c["before"],
                       tuple(c["syms"]), tuple(c["targets"]), c["funcs"], c["ptype"]), nontrivial=nt,
-                 tags=["update:" + t for t in set(c["tags"])] + ["update:fatal" if c["impl"]["fatal"] else "update:ran"],
+                 tags=["update:" + t for t in set(c["tags"])] + ["update:fatal" if c["impl"]["fatal"] else "update:ran"]
+                 + ["update:changed-bytes" if c["impl"]["after"] != c["before"] else "update:no-change",
+                    "update:min_size=%d" % c["min"]]
+                 + (["update:code-pages"] if c["impl"]["ncp"] else []),
                  sample=smp, size=len(c["before"]))
     legacy = wit["impl"]["fatal"]
     ctx.c14_fixed = not legacy
